@@ -5,6 +5,7 @@ import (
 	"bytes"
 	"errors"
 	"net"
+	"slices"
 	"sync"
 	"time"
 
@@ -200,17 +201,22 @@ func (cj *CookieJar) parseCookiesFromResp(host, path []byte, resp *fasthttp.Resp
 	cookies := cj.hostCookies[hostStr]
 
 	now := time.Now()
-	resp.Header.VisitAllCookie(func(key, value []byte) {
-		created := false
-		c := searchCookieByKeyAndPath(key, path, cookies)
-		if c == nil {
-			c, created = fasthttp.AcquireCookie(), true
+	resp.Header.VisitAllCookie(func(_, value []byte) {
+		c := fasthttp.AcquireCookie()
+		_ = c.ParseBytes(value) //nolint:errcheck // ignore error
+
+		// The cookie replaces the stored one with the same key and path.
+		if i := slices.IndexFunc(cookies, func(o *fasthttp.Cookie) bool {
+			return bytes.Equal(o.Key(), c.Key()) &&
+				(bytes.Equal(o.Path(), c.Path()) || (len(o.Path()) <= 1 && len(c.Path()) <= 1))
+		}); i >= 0 {
+			fasthttp.ReleaseCookie(cookies[i])
+			cookies = slices.Delete(cookies, i, i+1)
 		}
 
-		_ = c.ParseBytes(value) //nolint:errcheck // ignore error
 		if c.Expire().Equal(fasthttp.CookieExpireUnlimited) || c.Expire().After(now) {
 			cookies = append(cookies, c)
-		} else if created {
+		} else {
 			fasthttp.ReleaseCookie(c)
 		}
 	})
